@@ -118,6 +118,7 @@ def _scenario(args):
             cwd = os.path.join(root, 'work')
             outname = 'bb.out' if sc['defout'] else 'build.bin'
             paths = {'out': os.path.join(cwd, outname), 'lab': os.path.join(cwd, 'out.lab'), 'hex': os.path.join(cwd, outname + '.hex')}
+            prewritten = {fkey: OLD[fkey] for fkey in sc['pre']}
             for fkey in sc['pre']:
                 with open(paths[fkey], 'wb') as f:
                     f.write(OLD[fkey])
@@ -147,13 +148,27 @@ def _scenario(args):
                     argv += [['--hex-offset', rng.choice([hex(offset), str(offset)])]]
             rng.shuffle(argv)
             argv = [x for g in argv for x in g]
+            stale = None
+            if exit_exp == 0 and sc['pre'] and rng.random() < 0.4:
+                # older files that LOOK like the new ones: what this very command writes, plus a stale tail / minus its end
+                # (an "already up to date?" shortcut must not leave them).  The command is run once to learn its files.
+                _run_cli(argv, cwd, inproc)
+                stale = rng.choice(['longer', 'shorter'])
+                for fkey, pth in paths.items():
+                    if fkey in sc['pre'] and os.path.exists(pth):
+                        cur = open(pth, 'rb').read()
+                        prewritten[fkey] = cur + b'STALE-TAIL\n' if stale == 'longer' or len(cur) < 4 else cur[:-3]
+                        with open(pth, 'wb') as f:
+                            f.write(prewritten[fkey])
+                    elif os.path.exists(pth):
+                        os.unlink(pth)
             code, effects, errtext = _run_cli(argv, cwd, inproc)
             state, problems = {}, []
             for fkey, p in paths.items():
                 if not os.path.exists(p):
                     state[fkey] = 'absent'
                 else:
-                    state[fkey] = 'old' if open(p, 'rb').read() == OLD[fkey] else 'new'
+                    state[fkey] = 'old' if open(p, 'rb').read() == prewritten.get(fkey) else 'new'
             # stray files
             extra = sorted(set(os.listdir(cwd)) - {os.path.basename(p) for p in paths.values()})
             if (code == 0) != (exit_exp == 0):
@@ -185,7 +200,7 @@ def _scenario(args):
                         problems.append('HexWellFormed')
                     else:
                         hexrow = {'bytes': list(rec['out']), 'oh': offset >> 16, 'ol': offset & 0xffff, 'recs': recs}
-            res.append({'sc': sc, 'argv': argv, 'inproc': inproc, 'exit': code, 'exit_expected': exit_exp, 'state': state, 'state_expected': fs_exp,
+            res.append({'sc': sc, 'argv': argv, 'inproc': inproc, 'stale_older_files': stale, 'exit': code, 'exit_expected': exit_exp, 'state': state, 'state_expected': fs_exp,
                         'effects': effects, 'effects_expected': eff_exp, 'extra': extra, 'problems': sorted(set(problems)), 'stderr': errtext[-300:], 'hexrow': hexrow})
     os.chdir(base)
     shutil.rmtree(root, ignore_errors=True)
@@ -259,7 +274,11 @@ def c17(run, scratch):
     run.coverage['subprocess_runs'] = sum(1 for r_ in results if not r_['inproc'])
     run.coverage['drift'] = drift
     run.coverage['exhaustive'] = True
-    run.coverage['rule'] = ('TLC explores AsmCli over every scenario: option subsets of {-l, --hex-offset, -c, -i, -o/default} x pre-existing out/label/hex files x trouble in '
+    nstale = sum(1 for res in results if res.get('stale_older_files'))
+    if nstale < 40:
+        raise tlc.TlcFailure('non-vacuity: only %d runs over look-alike older files' % nstale)
+    run.coverage['runs_over_lookalike_older_files'] = nstale
+    run.coverage['rule'] = ('TLC explores AsmCli over every scenario: option subsets of {-l, --hex-offset, -c, -i, -o/default} x pre-existing out/label/hex files (unrelated content, or for 40% of the successful runs what the command itself writes plus a stale tail / minus its end) x trouble in '
                             '{none, missing input, bad include dir, hex offset bad syntax / negative / beyond 4 GiB, assembler failure in each of 8 passes}; each scenario is materialised '
                             '(random argument order, absolute/relative input path, several offsets) and run through the real cli_main() in-process with write-order recording, and in a '
                             'subprocess for a sample; exit status, final state of every file, stray files, -o bytes vs assemble(), -l lines vs the label table; hex files decoded by TLC')
